@@ -760,10 +760,26 @@ def _sink_returns(tree: ast.AST) -> None:
             if isinstance(n, ast.Return) and isinstance(n.value, ast.Name):
                 rl[n.value.id] = rl.get(n.value.id, 0) + 1
         only_returned = {k for k, v in rl.items() if ld.get(k) == v}
+        def all_blocks():
+            out = [fn.body]
+            for owner in ast.walk(fn):
+                if owner is fn or isinstance(owner, (ast.FunctionDef, ast.AsyncFunctionDef, ast.ClassDef, ast.Lambda)):
+                    continue
+                for fld in ("body", "orelse", "finalbody"):
+                    b_ = getattr(owner, fld, None)
+                    if isinstance(b_, list) and b_ and isinstance(b_[0], ast.stmt):
+                        out.append(b_)
+                for h_ in getattr(owner, "handlers", []) or []:
+                    out.append(h_.body)
+            return out
         changed = True
-        while changed:
-            changed = False
-            body = fn.body
+        rounds = 0
+        while changed and rounds < 50:
+          rounds += 1
+          changed = False
+          for body in all_blocks():
+            if changed:
+                break
             # the same inside the branches of trailing conditionals (`else: if c: s = X` + `return s` nested one level down)
             def nested_tail(block, depth=0):
                 did = False
